@@ -29,8 +29,11 @@ pub fn module(r: &mut Rng, allow_unstable: bool) -> (Vec<u8>, AInfo) {
     // imports
     let mut funcs: Vec<u32> = vec![]; let mut tables: Vec<(bool, bool)> = vec![]; /* (externref, table64) */ let mut mems: Vec<(bool, bool)> = vec![]; /* (memory64, shared) */ let mut globals: Vec<(u8, bool, bool)> = vec![]; /* (type, mutable, imported) */
     let mut is = we::ImportSection::new(); let n_imp = r.usize(5);
+    let mut prev_names: Vec<(String, String)> = vec![];
     for k in 0..n_imp {
-        let (md, nm) = (name(r), format!("i{}", k));
+        // wasm allows several imports with the same (module, field) pair, of the same or of different kinds
+        let (md, nm) = if !prev_names.is_empty() && r.chance(1, 4) { r.pick(&prev_names).clone() } else { (name(r), format!("i{}", k)) };
+        prev_names.push((md.clone(), nm.clone()));
         match r.below(4) {
             0 => { let t = r.usize(types.len()) as u32; is.import(&md, &nm, we::EntityType::Function(t)); funcs.push(t); }
             1 => { let ext = r.chance(1, 3); let t64 = allow_unstable && r.chance(1, 5); let (min, max) = limits(r, t64); if t64 { info.table64 += 1; }
